@@ -31,7 +31,24 @@ def havoc_class_state(I, tag="prev"):
     for m in ("os_idx_map", "service_idx_map", "process_idx_map"):
         st[m] = SDict(1, "int", z3.Const(f"{tag}_{m}_dom", z3.ArraySort(I_, B_)),
                       z3.Const(f"{tag}_{m}_val", z3.ArraySort(I_, I_)), fresh=False, label=tag + m)
+    # any OTHER class attribute that some method assigns (a memo, a "last layout" marker ...) is process-wide state too
+    # and holds whatever an earlier environment left there
+    import ast
+    from pyvc.values import Opaque
+    cls = I.repo.cls(HVQ)
+    for fi in cls.methods.values():
+        for n in ast.walk(fi.node):
+            if isinstance(n, (ast.Assign, ast.AugAssign, ast.AnnAssign)):
+                for t in (n.targets if isinstance(n, ast.Assign) else [n.target]):
+                    if isinstance(t, ast.Attribute) and isinstance(t.value, ast.Name) and t.value.id in ("cls", cls.name) \
+                            and t.attr not in st_known(st):
+                        st[t.attr] = Opaque(f"{tag} value of class attribute {t.attr}")
     return st
+
+
+def st_known(st):
+    return set(LAYOUT_ATTRS) | {"num_os", "num_services", "num_processes", "_subnet_address_idx", "os_idx_map",
+                                "service_idx_map", "process_idx_map", "address_space_bounds", "state_size"}
 
 
 def layout_installed(sig, st):
